@@ -164,6 +164,11 @@ func registryMethods(r core.MetricRegistry, flush func()) []c17Method {
 			}
 		}},
 		{"Start", true, func(g, a int) { r.Start() }},
+		{"Stop", true, func(g, a int) {
+			if a%4 == 0 {
+				r.Stop()
+			}
+		}},
 		{"Flush", false, func(g, a int) { flush() }},
 	}
 }
